@@ -327,7 +327,10 @@ def summarize(pid, tier, seed, results, wall):
     slowest = {"name": None, "s": 0.0}
     canaries = 0
     native_evals = 0
-    os.makedirs(os.path.join(VERIF, "replays", pid), exist_ok=True)
+    rdir = os.path.join(VERIF, "replays", pid)
+    os.makedirs(rdir, exist_ok=True)
+    for old in glob.glob(os.path.join(rdir, "*.json")):
+        os.unlink(old)
 
     def bump(code):
         nonlocal exit_code
